@@ -149,11 +149,18 @@ fn check_truncate(ctx: &Ctx, c: &Case) -> PResult {
         }
     }
     let (hh, hl) = gadget::honest_split(&x, n);
-    let honest_vec = gadget::truncate_vec(n, hh, hl, &BtsForge::default());
-    if !g.role_model_matches(1, 0, &honest_vec) {
+    let honest_segs = gadget::truncate_segs(n, hh, hl, &BtsForge::default());
+    let (ws, we) = g.op_wits(1);
+    let Some(mask) = gadget::fit(&honest_segs, &g.wit[ws..we]) else {
         ctx.label("role model mismatch: adversarial tier skipped");
         return Ok(());
+    };
+    let dropped = gadget::dropped_segments(&honest_segs, &mask);
+    if !dropped.is_empty() {
+        ctx.label("role model fitted with dropped segments");
     }
+    let honest_vec = gadget::flatten(&honest_segs, &mask);
+    let tv = |n: usize, h: U256, l: U256, f: &BtsForge| gadget::flatten(&gadget::truncate_segs(n, h, l, f), &mask);
     let mut cands: Vec<(String, Vec<F>)> = Vec::new();
     let forges = [
         ("", BtsForge::default()),
@@ -166,7 +173,7 @@ fn check_truncate(ctx: &Ctx, c: &Case) -> PResult {
     for k in 1..=2u32 {
         if let Some((h, l)) = gadget::alias_split(&x, k, n) {
             for (fname, forge) in &forges {
-                cands.push((format!("split of x+{k}r{fname}"), gadget::truncate_vec(n, h, l, forge)));
+                cands.push((format!("split of x+{k}r{fname}"), tv(n, h, l, forge)));
             }
         }
     }
@@ -174,13 +181,13 @@ fn check_truncate(ctx: &Ctx, c: &Case) -> PResult {
     if hh != U256::ZERO {
         let h2 = hh.sub(U256::ONE).0;
         let l2 = f_int(&(f_of(hl) + f_pow2(n as u32)));
-        cands.push(("split (high-1, low+2^n)".into(), gadget::truncate_vec(n, h2, l2, &BtsForge::default())));
+        cands.push(("split (high-1, low+2^n)".into(), tv(n, h2, l2, &BtsForge::default())));
     }
     // split of another value entirely (transplant)
     let (oh, ol) = gadget::honest_split(&c.r2.0, n);
-    cands.push(("split of another value".into(), gadget::truncate_vec(n, oh, ol, &BtsForge::default())));
+    cands.push(("split of another value".into(), tv(n, oh, ol, &BtsForge::default())));
     for (fname, forge) in &forges[1..] {
-        cands.push((format!("honest split{fname}"), gadget::truncate_vec(n, hh, hl, forge)));
+        cands.push((format!("honest split{fname}"), tv(n, hh, hl, forge)));
     }
     let (start, _) = g.op_wits(1);
     for (name, vec) in cands {
@@ -360,7 +367,7 @@ fn sweep(ctx: &Ctx) {
 }
 
 pub fn props() -> Vec<(Box<dyn PropDyn>, u32, u32)> {
-    vec![(Box::new(Prop::new("bits", case_strategy, check).shrink(300)), 2400, 40000)]
+    vec![(Box::new(Prop::new("bits", case_strategy, check).shrink(300)), 4000, 60000)]
 }
 
 pub fn sweeps(ctx: &Ctx) {
